@@ -767,7 +767,10 @@ struct World : CallbackSink
 		static const char * names[] = { "copy_ctor", "copy_assign", "move_ctor", "move_assign", "recreate", "copy_assign" };
 		const std::string what = std::string(names[kind]) + " Q" + num(a) + " <- Q" + num(b);
 		count((std::string("structural.") + names[kind]).c_str());
-		dropDqns(a); dropDqns(b); // structural operations are made with notification enabled on both queues
+		// the destination has no DisableQueueNotify objects of its own; in half of the operations the SOURCE keeps its live ones: they
+		// belong to the source object only, the copy / the moved-to queue starts with notification enabled (its waitFor is checked below)
+		dropDqns(a);
+		if(a == b || ! rng.chance(1, 2)) dropDqns(b); else if(! dqns[b].empty()) count("structural.source_with_live_DisableQueueNotify");
 		switch(kind) {
 		case 0: { // copy construct over a
 			std::vector<int> gone(qm[a].pending.begin(), qm[a].pending.end());
